@@ -542,7 +542,27 @@ func runCheck(o *Options) (int, *Evidence) {
 		}
 		ob.Queries = append(ob.Queries, j)
 	}
+	var sbReasons []string
+	if o.prop == "C16" {
+		var pks []string
+		for p := range pk {
+			pks = append(pks, p)
+		}
+		sort.Strings(pks)
+		for _, p := range pks {
+			sb, rs := stopRuleSB(sp, prog, p)
+			seObs = append(seObs, sb...)
+			sbReasons = append(sbReasons, rs...)
+		}
+	}
 	for _, ob := range seObs {
+		if obs[ob.Name] != nil { // several operations of the same text in one function
+			if ob.Status != "discharged" {
+				obs[ob.Name].Status = ob.Status
+				obs[ob.Name].Queries = append(obs[ob.Name].Queries, ob.Queries...)
+			}
+			continue
+		}
 		obs[ob.Name] = ob
 		names = append(names, ob.Name)
 	}
@@ -676,7 +696,12 @@ func runCheck(o *Options) (int, *Evidence) {
 	ev.Coverage["slow_obligations"] = slow
 	ev.Coverage["vacuity_checks"] = len(names) - nOb
 	ev.Coverage["trusted_base"] = trustedBase(sp, pk)
-	ev.Assumptions = assumptions(sp, pk, o.prop)
+	ev.Assumptions = append(assumptions(sp, pk, o.prop), sbReasons...)
+	for _, x := range execs {
+		for _, a := range x.anonGoroutines {
+			ev.Assumptions = append(ev.Assumptions, "anonymous goroutine started at "+a+": its body is not verified")
+		}
+	}
 	ev.Violations = len(violations)
 	if o.writeBaseline {
 		var ok []string
